@@ -132,6 +132,30 @@ def check_run(r, cfg):
             per_agent = collections.Counter(e[1] for e in EV if e[0] == "consult" and e[2] == t and not isinstance(s.id2agent[e[1]], sim.RandHFT))
             if per_agent and max(per_agent.values()) > 1:
                 raise V_(R + "._collect_orders_from_normal_agents", "C09 every normal agent is consulted at most once per step", (t, dict(per_agent)))
+        # caps: per step, normal agents are consulted only while fewer than maxNormalOrders of them have produced orders; after each
+        # producing normal agent, high-frequency agents are consulted only while fewer than maxHighFrequencyOrders of them have produced
+        cap_n, cap_h = ses.max_normal_orders, ses.max_high_frequency_orders
+        for t in range(lo, hi):
+            produced_n = 0; produced_h = 0
+            for e in EV:
+                if e[0] in ("cb_sub", "cb_can"):        # agent callbacks are synchronous (logger records may be delivered later)
+                    et = e[2].time if e[0] == "cb_sub" else e[2].cancel_time
+                    if et == t and not isinstance(s.id2agent[e[1]], sim.RandHFT):
+                        produced_h = 0          # an accepted order / cancel of a normal agent: a new batch, the high-frequency phase follows it
+                    continue
+                if e[0] not in ("consult", "produced") or e[2] != t:
+                    continue
+                hft = isinstance(s.id2agent[e[1]], sim.RandHFT)
+                if e[0] == "consult":
+                    if not hft:
+                        if produced_n >= cap_n:
+                            raise V_(R + "._collect_orders_from_normal_agents", "C09 a normal agent is consulted only while fewer than maxNormalOrders agents have produced orders in this step", (t, cap_n, produced_n))
+                    elif produced_h >= cap_h:
+                        raise V_(R + "._handle_orders", "C09 a high-frequency agent is consulted only while fewer than maxHighFrequencyOrders of them have produced orders after this batch", (t, cap_h, produced_h))
+                elif hft:
+                    produced_h += 1
+                else:
+                    produced_n += 1
         t0 = hi
     # ---- C17 index
     for m in s.markets:
